@@ -634,7 +634,7 @@ func runCase(run *lib.Run, c int64, base string, inlog *os.File) {
 	real[V] = true
 	dir := filepath.Join(base, fmt.Sprintf("c%d", c))
 	os.MkdirAll(dir, 0755)
-	defer os.RemoveAll(dir)
+	defer lib.RemoveLater(dir)
 	run.Eval()
 	net, err := sim.NewNet(sim.Config{Powers: powers, Real: real, Dir: dir, Label: "c08"})
 	if err != nil {
